@@ -336,3 +336,71 @@ def run_c13(rep, tier):
         ws.close()
     rep.coverage["c13"] = stats
     return dis, fails
+
+
+# ---- several value providers of one type in one package: each injector gets the value *it* wrote ---------------
+
+PAIRS = [("lib.T", ["lib.T{X: 1}", "lib.T{X: 2}", "lib.T{X: 1, P: nil}"]),
+         ("*lib.T", ["&lib.T{X: 3}", "&lib.T{X: 4}"]),
+         ("[]int", ["[]int{1}", "[]int{2}", "[]int{1, 2}"]),
+         ("map[string]int", ['map[string]int{"a": 1}', 'map[string]int{"a": 2}']),
+         ("int", ["1 + 2", "1 + 3", "lib.Num", "lib2.Num"]),
+         ("[2]string", ['[2]string{"a", "b"}', '[2]string{"b", "a"}']),
+         ("lib.MyInt", ["lib.MyInt(1)", "lib.MyInt(2)"]),
+         ("[]lib.T", ["[]lib.T{{X: 1}, {X: 2}}", "[]lib.T{{X: 2}, {X: 1}}"])]
+
+
+def run_pairs(rep, tier):
+    ws = Workspace()
+    fails = []
+    try:
+        os.makedirs(ws.root + "/lib")
+        os.makedirs(ws.root + "/lib2")
+        os.makedirs(ws.root + "/pairs")
+        os.makedirs(ws.root + "/cmd/drv2")
+        open(ws.root + "/lib/lib.go", "w").write(LIB.replace('import "fmt"', 'import (\n\t"fmt"\n\n\t"github.com/google/wire"\n)')
+                                                 + "\nvar Default = \"from lib\"\n\nvar SetDefault = wire.NewSet(wire.Value(Default))\n")
+        open(ws.root + "/lib2/lib2.go", "w").write("package lib2\n\nimport \"github.com/google/wire\"\n\nvar Num = 77\n\nvar Default = \"from lib2\"\n\n"
+                                                   "var SetDefault = wire.NewSet(wire.Value(Default))\n")
+        inj, home, calls = [], [], []
+        for gi, (typ, exprs) in enumerate(PAIRS):
+            for ei, e in enumerate(exprs):
+                nm = "V%d_%d" % (gi, ei)
+                inj.append("func %s() %s {\n\tpanic(wire.Build(wire.Value(%s)))\n}\n" % (nm, typ, e))
+                home.append("var Home%s %s = %s" % (nm, typ, e))
+                calls.append((nm, e))
+        # the same expression text in the sets of two packages
+        inj.append("func VS_0() string {\n\tpanic(wire.Build(lib.SetDefault))\n}\n")
+        inj.append("func VS_1() string {\n\tpanic(wire.Build(lib2.SetDefault))\n}\n")
+        home += ["var HomeVS_0 = lib.Default", "var HomeVS_1 = lib2.Default"]
+        calls += [("VS_0", "Default (package lib)"), ("VS_1", "Default (package lib2)")]
+        imports = 'import (\n\t"github.com/google/wire"\n\t"%s/lib"\n\t"%s/lib2"\n)\n' % (MOD, MOD)
+        open(ws.root + "/pairs/wire.go", "w").write("//go:build wireinject\n// +build wireinject\n\npackage pairs\n\n" + imports + "\n" + "\n".join(inj))
+        open(ws.root + "/pairs/home.go", "w").write("package pairs\n\nimport (\n\t\"%s/lib\"\n\t\"%s/lib2\"\n)\n\n" % (MOD, MOD) + "\n".join(home) + "\n")
+        L = ["package main", "", "import (", '\t"fmt"', '\t"reflect"', '\t"%s/pairs"' % MOD, ")", "", "func main() {"]
+        for nm, _ in calls:
+            L.append('\tfmt.Println("R %s", reflect.DeepEqual(pairs.%s(), pairs.Home%s), fmt.Sprint(pairs.%s()), fmt.Sprint(pairs.Home%s))' % (nm, nm, nm, nm, nm))
+        L.append("}")
+        open(ws.root + "/cmd/drv2/main.go", "w").write("\n".join(L) + "\n")
+        rc, out, err = ws.wire(["gen", "./pairs"])
+        rep.evaluations += len(calls)
+        if rc != 0 or panicked(err):
+            fails.append({"stream": "c13-pairs", "why": ["wire gen fails on a package with several value providers of one type: " + err.strip()[-400:]]})
+            return [], fails
+        rc, out, err = run(["go", "run", "./cmd/drv2"], cwd=ws.root, env=dict(GOENV), timeout=300)
+        if rc != 0:
+            fails.append({"stream": "c13-pairs", "why": ["the package does not build/run: " + (out + err)[-500:]]})
+            return [], fails
+        exprs = dict(calls)
+        for line in out.split("\n"):
+            m = re.match(r"R (\w+) (\w+) (.*)$", line)
+            if m:
+                rep.nontrivial.add("pair:" + m.group(1))
+                if m.group(2) != "true":
+                    fails.append({"stream": "c13-pairs", "injector": m.group(1), "expression": exprs[m.group(1)],
+                                  "wire_gen.go": open(ws.root + "/pairs/wire_gen.go").read()[:3000],
+                                  "why": ["injector %s returns a value other than its own expression wire.Value(%s): got / want = %s"
+                                          % (m.group(1), exprs[m.group(1)], m.group(3)[:200])]})
+    finally:
+        ws.close()
+    return [], fails
